@@ -206,7 +206,7 @@ func runC03(c c03Case, r *rep.Report) (key, msg string, stats map[string]int64) 
 			so.SetPingInterval(PI)
 			so.SetPingTimeout(PT)
 			w := rig.NewWorld(rig.Options{Server: so})
-			defer w.Shutdown()
+			defer w.Finish()
 			if c.Window == "handshake" {
 				w.Gate.Arm("server.Handshake.afterNewSocket", 1)
 			}
@@ -354,7 +354,13 @@ func runC03(c c03Case, r *rep.Report) (key, msg string, stats map[string]int64) 
 				rig.Wait()
 			}
 			wantClosed := len(c.Causes) > 0
-			if c.Transport == "polling" && len(c.Causes) == 1 && c.Causes[0] == "parse-error" {
+			onlyParse := len(c.Causes) > 0
+			for _, cs := range c.Causes {
+				if cs != "parse-error" {
+					onlyParse = false
+				}
+			}
+			if c.Transport == "polling" && onlyParse {
 				// an undecodable polling payload is dropped without closing the session; the
 				// statement does not demand a close for it
 				wantClosed = false
@@ -386,7 +392,7 @@ func runC03UpgradeAfterClose(cause string, r *rep.Report) (key, msg string) {
 		w := rig.NewWorld(rig.Options{Server: so, OnConnection: func(s engine.Socket) {
 			s.On("close", func(...any) { time.Sleep(5 * time.Millisecond) })
 		}})
-		defer w.Shutdown()
+		defer w.Finish()
 		cl, err := w.Connect(rig.ClientCfg{Rev: 4, Transport: "polling"})
 		rig.Wait()
 		sock := w.Socket(0)
